@@ -296,6 +296,14 @@ def _module_calls() -> dict[str, dict[str, Any]]:
     C["nnx.softmax(axis=0)"] = {"fn": lambda x: nnx.softmax(x, axis=0), "sig": [X]}
     C["nnx.gelu(approximate=False)"] = {"fn": lambda x: nnx.gelu(x, approximate=False), "sig": [X]}
     C["nnx.leaky_relu(negative_slope=0.3)"] = {"fn": lambda x: nnx.leaky_relu(x, negative_slope=0.3), "sig": [X]}
+    # Flax module methods behind an ONNX function boundary: explicit None / value / default keyword forms
+    from vlib import fnmods7
+
+    km = fnmods7.DKwModule(0.25)
+    C["onnx_function(nnx.Module)(gain=None)"] = {"fn": lambda x: km(x, gain=None), "sig": [X]}
+    C["onnx_function(nnx.Module)(gain=None)+default"] = {"fn": lambda x: km(x, gain=None) + km(x), "sig": [X]}
+    C["onnx_function(nnx.Module)(gain=3.0,mode=None)"] = {"fn": lambda x: km(x, gain=3.0, mode=None), "sig": [X]}
+    C["onnx_function(fn)(gain=None)+default"] = {"fn": lambda x: fnmods7.f_kw(x, gain=None) - fnmods7.f_kw(x), "sig": [X]}
     d = nn.Dense(5)
     p = d.init(jax.random.PRNGKey(0), jnp.ones((1, 4)))
     C["linen.Dense(apply)"] = {"fn": lambda x: d.apply(p, inputs=x), "sig": [X]}
